@@ -88,7 +88,7 @@ impl<'a> Session<'a> {
         Session { q: None, out, stats: Stats::new(), alive: false }
     }
     fn panic_event(&mut self, during: &str, msg: &str) {
-        self.out.line(&format!("{{\"op\":\"panic\",\"during\":{},\"msg\":{}}}", jstr(during), jstr(msg)));
+        self.out.line(&format!("{{\"op\":\"panic\",\"where\":\"{}\",\"during\":{},\"msg\":{}}}", if during.contains("convert") { "convert" } else { "edit" }, jstr(during), jstr(msg)));
         self.stats.add("panics", 1);
         self.alive = false;
         self.q = None;
@@ -362,6 +362,7 @@ pub fn drive_margins(s: &mut Session, rng: &mut Rng, thorough: bool) {
             random_scale_edit(s, rng);
         }
         let mut last: u8 = s.convert((rng.unit() * 10.0) as f32).unwrap_or(0);
+        let mut recent: Vec<f32> = Vec::new();
         for _ in 0..50 {
             let base = last as f64 * semi;
             match rng.below(12) {
@@ -387,7 +388,13 @@ pub fn drive_margins(s: &mut Session, rng: &mut Rng, thorough: bool) {
                         9 => base + (rng.unit() * 4.0 - 2.0) * semi,
                         _ => rng.unit() * 10.2 - 0.1,
                     };
-                    if let Some(n) = s.convert(v as f32) {
+                    // now and then re-issue one of the last few inputs, bit-identically
+                    let vf = if !recent.is_empty() && rng.chance(1, 4) { *rng.pick(&recent) } else { v as f32 };
+                    recent.push(vf);
+                    if recent.len() > 4 {
+                        recent.remove(0);
+                    }
+                    if let Some(n) = s.convert(vf) {
                         last = n;
                     }
                 }
@@ -411,6 +418,24 @@ pub fn drive_sweep(s: &mut Session, rng: &mut Rng, thorough: bool, shard: u32) {
             s.start();
             sweep_scale(s, m, 250);
             s.stats.add("distinct_scales", 1);
+        }
+    }
+    // first inputs anywhere outside the range (fresh quantizers, a few scales)
+    for m in scale_list(rng, 3).into_iter().take(6) {
+        for i in 0..60 {
+            let v = match i % 4 {
+                0 => -(rng.unit() * 12.0) as f32,
+                1 => (10.0 + rng.unit() * 12.0) as f32,
+                2 => -(rng.below(13) as f32),
+                _ => 10.0 + rng.below(13) as f32,
+            };
+            s.start();
+            let off: Vec<u8> = (0..12u8).filter(|k| m & (1 << k) == 0).collect();
+            if !off.is_empty() {
+                s.forbid(&off);
+            }
+            s.convert(v);
+            s.convert(v);
         }
     }
     // inputs outside the range, infinities, NaN on fresh quantizers
